@@ -525,7 +525,11 @@ class World:
                 ok = a1 == a0 * ratio
             else:
                 want = float(a0) * float(ratio)
-                ok = abs(float(a1) - want) <= 1e-9 * max(abs(want), abs(float(a1)), 1e-12) + exp.get("abs", 0.0)
+                # a moment about the origin can be ~0 by cancellation: the error is relative to
+                # extent**(2+a+b), not to the value itself
+                ext = max([1.0] + [abs(float(c)) for c in kernel.coords_of(self.slots[step["a"]].V)])
+                power = 2 + step.get("ea", 0) + step.get("eb", 0)
+                ok = abs(float(a1) - want) <= 1e-9 * max(abs(want), abs(float(a1))) + 1e-11 * ext ** power
             if not ok:
                 raise Violation("transform-consequence", "C09", idx,
                                 f"{step['op']}{_argstr(step)} after the transformation is {a1!r}; "
